@@ -366,53 +366,67 @@ theorem updateLoop_keeps (sub : Str) : ∀ (objs : List (Key × Obj)) (s : Store
       | ok u => exact updateLoop_keeps sub r s1 hw1 hp1 (fun x hx => hn x (by simp [hx]))
 
 
-/-- the keys the removal pass of `update_project_options` deletes -/
-def goneKey (objs : List (Key × Obj)) (s1 : Store) (sub : Str) (k : Key) : Bool :=
-  !(objs.any (fun p => p.1 == k)) && s1.isProjectOption k && k.sub == some sub
+theorem mem_of_alookup {α : Type} (k : Key) (v : α) : ∀ (l : List (Key × α)), alookup k l = some v → (k, v) ∈ l
+  | [], h => by simp [alookup] at h
+  | (k', v') :: r, h => by
+    simp only [alookup] at h
+    split at h
+    · rename_i e; cases h; simp [e]
+    · simp [mem_of_alookup k v r h]
 
-/-- `update_project_options` keeps every parent pointer current, for all children (yielding or overridden), provided
-the removal pass does not delete a top-level option that still has children -/
+/-- `update_project_options` keeps every parent pointer current — for all children (yielding or overridden) of a
+replaced object, and, because the removal pass unlinks the children of a removed option, whatever is removed -/
 theorem update_project_options_keeps_parentCurrent (sub : Str) (objs : List (Key × Obj)) (s : Store)
-    (hw : Wf s) (hpc : ParentCurrent s) (hn : ∀ kv ∈ objs, kv.2.parent = none)
-    (hkeep : ∀ k id o pid, alookup k (forEach (updateOne sub) objs s).2.options = some id →
-      (forEach (updateOne sub) objs s).2.heap[id]? = some o → o.parent = some pid →
-      goneKey objs (forEach (updateOne sub) objs s).2 sub k.asRoot = false) :
+    (hw : Wf s) (hpc : ParentCurrent s) (hn : ∀ kv ∈ objs, kv.2.parent = none) :
     ParentCurrent (updateProjectOptions sub objs s).2 := by
   obtain ⟨hw1, hp1⟩ := updateLoop_keeps sub objs s hw hpc hn
   simp only [updateProjectOptions, bind, M.bind]
   cases hr : forEach (updateOne sub) objs s with
   | mk res s1 =>
-    rw [hr] at hw1 hp1 hkeep
+    rw [hr] at hw1 hp1
     cases res with
     | error e => exact hp1
     | ok u =>
-      simp only [M.modify]
+      simp only [M.get, M.modify, unlinkChildren]
       intro k id o pid hk hi hpar
       simp only at hk hi ⊢
-      have hf := alookup_filter_key k (fun k => !(goneKey objs s1 sub k)) s1.options
-      simp only [goneKey] at hf
+      have hf := alookup_filter_key k
+        (fun k => !((!objs.any fun p => p.fst == k) && s1.isProjectOption k && k.sub == some sub)) s1.options
       rw [hf] at hk
       by_cases hq : (!((!objs.any fun p => p.fst == k) && s1.isProjectOption k && k.sub == some sub)) = true
       · simp only [hq, if_true] at hk
-        have h1 := hp1 k id o pid hk hi hpar
-        have hg := hkeep k id o pid hk hi hpar
-        have hf2 := alookup_filter_key k.asRoot (fun k => !(goneKey objs s1 sub k)) s1.options
-        simp only [goneKey] at hf2 hg
+        simp only [List.getElem?_map, Option.map_eq_some_iff] at hi
+        obtain ⟨c, hc, rfl⟩ := hi
+        -- the object before the unlinking had the same parent, and that parent is not a removed object
+        have hcp : c.parent = some pid ∧
+            ((List.filter (fun p => (!objs.any fun p_1 => p_1.fst == p.fst) && s1.isProjectOption p.fst && p.fst.sub == some sub)
+              s1.options).map (·.2)).contains pid = false := by
+          split at hpar
+          · rename_i pid' hp'
+            split at hpar
+            · cases hpar
+            · rename_i hnc
+              rw [hp'] at hpar
+              cases hpar
+              exact ⟨hp', by simpa using hnc⟩
+          · rename_i hnone
+            rw [hnone] at hpar; cases hpar
+        have h1 := hp1 k id c pid hk hc hcp.1
+        have hf2 := alookup_filter_key k.asRoot
+          (fun k => !((!objs.any fun p => p.fst == k) && s1.isProjectOption k && k.sub == some sub)) s1.options
         rw [hf2]
-        simp [hg, h1]
+        by_cases hg : ((!objs.any fun p => p.fst == k.asRoot) && s1.isProjectOption k.asRoot && k.asRoot.sub == some sub) = true
+        · -- the top-level key is removed: then its object is among the removed ones
+          exfalso
+          have hm := mem_of_alookup k.asRoot pid s1.options h1
+          have : ((List.filter (fun p => (!objs.any fun p_1 => p_1.fst == p.fst) && s1.isProjectOption p.fst && p.fst.sub == some sub)
+              s1.options).map (·.2)).contains pid = true := by
+            simp only [List.contains_eq_mem, List.mem_map, List.mem_filter, decide_eq_true_eq]
+            exact ⟨(k.asRoot, pid), ⟨hm, hg⟩, rfl⟩
+          rw [this] at hcp
+          exact Bool.noConfusion hcp.2
+        · simp [hg, h1]
       · simp [hq] at hk
-
-/-- re-reading the option file of a *subproject* can never delete a parent: unconditional -/
-theorem update_subproject_options_keeps_parentCurrent (sub : Str) (objs : List (Key × Obj)) (s : Store)
-    (hsub : sub ≠ []) (hw : Wf s) (hpc : ParentCurrent s) (hn : ∀ kv ∈ objs, kv.2.parent = none) :
-    ParentCurrent (updateProjectOptions sub objs s).2 := by
-  apply update_project_options_keeps_parentCurrent sub objs s hw hpc hn
-  intro k id _ _ _ _ _
-  have : (k.asRoot.sub == some sub) = false := by
-    simp only [Key.asRoot, beq_eq_false_iff_ne, ne_eq, Option.some.injEq]
-    exact fun e => hsub e.symm
-  simp [goneKey, this]
-
 
 /-! ### the computable form, and the variant that re-points only the children that are yielding -/
 
